@@ -24,7 +24,7 @@ Long names (kind "long"): the quantifier bounds neither the length of a name nor
 number of a name counts ("embedded decimal numbers compare by value"), the 300th as much as the first.  Names that
 agree in their first k-1 numbers and differ in the k-th (2, 9, 10, 100; zero-padded twins; I..IV against decimals;
 chromosome, its unlocs, the next chromosome) for k from 1 to several thousand, behind long runs of text as well, are
-sorted from every initial order (a fixed handful of orders for the longest) and judged by the same oracle.
+sorted from every initial order (seven orders where name length x number of orders exceeds 60 000) and judged by the same oracle.
 spec = {"pad": int, "stem": str, "sep": str, "k": int, "lead": "count"|"same"|"roman"|"mixed", "tails": [str, ...]}:
 name i = "q" * pad + (stem + <number j> + sep for j = 1..k-1) + stem + tails[i]   (see long_names)
 
@@ -45,22 +45,8 @@ SMALL_ALPHABET = "SIVX_012"
 WIDE_ALPHABET = "ABHISVXZabisvx0123456789_-."
 
 
-_LONG_KEYS = {}
-
-
 def okey(name):
     """independent natural key: [text, number, text, ..., text]"""
-    if len(name) > 400:  # long names are judged many times over: their oracle keys are kept (never mutated by callers)
-        got = _LONG_KEYS.get(name)
-        if got is None:
-            if len(_LONG_KEYS) > 64:
-                _LONG_KEYS.clear()
-            got = _LONG_KEYS[name] = _okey(name)
-        return got
-    return _okey(name)
-
-
-def _okey(name):
     toks = [""]
     p = 0
     n = len(name)
@@ -670,7 +656,10 @@ def check_long(spec, ranks, col, inp):
     )
     tail_of = dict(enumerate(spec["tails"]))
     first = None
-    for perm in some_orders(n, len(names[0]) * n <= 12000):
+    n_orders = 1
+    for j in range(2, n + 1):
+        n_orders *= j
+    for perm in some_orders(n, len(names[0]) * n_orders <= 60000):
         nm = [names[i] for i in perm]
         for fn in ("scaffolds_sorted_by_name", "smart_sort_scaffolds"):
             rk = [ranks[i] for i in perm] if (ranks and fn.startswith("smart")) else [0] * n
